@@ -50,9 +50,15 @@ func NewQuery(queryString string) (*Query, error) {
 	}
 
 	if query.stmt.Condition != nil {
+		cond := query.stmt.Condition
+		// AND binds tighter than OR: a top level OR has to be parenthesized,
+		// otherwise the time bounds only apply to its last operand.
+		if be, ok := cond.(*influxql.BinaryExpr); ok && be.Op == influxql.OR {
+			cond = &influxql.ParenExpr{Expr: cond}
+		}
 		query.stmt.Condition = &influxql.BinaryExpr{
 			Op:  influxql.AND,
-			LHS: query.stmt.Condition,
+			LHS: cond,
 			RHS: &influxql.BinaryExpr{
 				Op:  influxql.AND,
 				LHS: startExpr,
